@@ -150,6 +150,41 @@ struct Drv {
             }
         });
     }
+    // compound assignment with the SAME object on both sides (x op= x): the operand is then an alias of the
+    // destination, which a by-reference parameter that is read after the destination was written gets wrong
+    template<class F>
+    void self_assign(const char* op, F f, bool as_shift = false) {
+        set_label(tn, op);
+        for_single_batches([&](const A& a0) {
+            A a = a0, r{}, r2{};
+            if (as_shift)
+                for (unsigned j = 0; j < N; ++j) a[j] = S(US(a[j]) % US(W + 1));     // amount = value: inside the width
+            if (std::string(op) == "div" || std::string(op) == "rem")
+                for (unsigned j = 0; j < N; ++j)
+                    if (a[j] == 0) a[j] = S(1);
+            opaque(a);
+            int sg = guarded([&] {
+                V x(a);
+                V& ret = f(x);
+                r = avel::to_array(x);
+                r2 = avel::to_array(ret);
+            });
+            for (unsigned j = 0; j < N; ++j) {
+                S z = S(0);
+                if (as_shift) {
+                    emit(Fact(op, K).val("a", a[j]).val("s", std::int64_t(a[j])).val("r", sg ? z : r[j]).signal(sg), tn, int(j), "self_eq");
+                    emit(Fact(op, K).val("a", a[j]).val("s", std::int64_t(a[j])).val("r", sg ? z : r2[j]).signal(sg), tn, int(j), "self_eq");
+                } else if (std::string(op) == "div" || std::string(op) == "rem") {
+                    const bool q = std::string(op) == "div";
+                    emit(Fact("div", K).val("a", a[j]).val("b", a[j]).val("q", sg ? z : (q ? r[j] : S(1))).val("r", sg ? z : (q ? z : r[j])).signal(sg), tn, int(j), "self_eq");
+                    emit(Fact("div", K).val("a", a[j]).val("b", a[j]).val("q", sg ? z : (q ? r2[j] : S(1))).val("r", sg ? z : (q ? z : r2[j])).signal(sg), tn, int(j), "self_eq");
+                } else {
+                    emit(Fact(op, K).val("a", a[j]).val("b", a[j]).val("r", sg ? z : r[j]).signal(sg), tn, int(j), "self_eq");
+                    emit(Fact(op, K).val("a", a[j]).val("b", a[j]).val("r", sg ? z : r2[j]).signal(sg), tn, int(j), "self_eq");
+                }
+            }
+        });
+    }
     template<class F>
     void un(const char* op, const char* form, F f) {
         set_label(tn, op);
@@ -195,6 +230,9 @@ struct Drv {
         bin_assign("add", "eq", [](V& x, V b) -> V& { return x += b; });
         bin_assign("sub", "eq", [](V& x, V b) -> V& { return x -= b; });
         bin_assign("mul", "eq", [](V& x, V b) -> V& { return x *= b; });
+        self_assign("add", [](V& x) -> V& { return x += x; });
+        self_assign("sub", [](V& x) -> V& { return x -= x; });
+        self_assign("mul", [](V& x) -> V& { return x *= x; });
         un("neg", "op", [](V a) { return -a; });
         un("pos", "op", [](V a) { return +a; });
         // ++x / --x: value and returned reference; x++ / x--: old value returned
@@ -635,6 +673,11 @@ struct Drv {
         bin_assign("and", "eq", [](V& x, V b) -> V& { return x &= b; });
         bin_assign("or", "eq", [](V& x, V b) -> V& { return x |= b; });
         bin_assign("xor", "eq", [](V& x, V b) -> V& { return x ^= b; });
+        self_assign("and", [](V& x) -> V& { return x &= x; });
+        self_assign("or", [](V& x) -> V& { return x |= x; });
+        self_assign("xor", [](V& x) -> V& { return x ^= x; });
+        self_assign("shl", [](V& x) -> V& { x <<= x; return x; }, true);
+        self_assign("shr", [](V& x) -> V& { x >>= x; return x; }, true);
         un("not", "op", [](V a) { return ~a; });
 
         std::vector<S> vals = shift_values();
@@ -720,8 +763,91 @@ struct Drv {
         }
     }
 
+    // Directed search.  Many structured pairs (small and power-of-two-sized quotients of full-width divisors next to
+    // an exact multiple, mixed-width pairs, uniform pairs) go through the three call forms in rotation and are
+    // screened natively; the screen only chooses WHICH inputs are logged: every pair it flags and a sample of the
+    // others become facts, and TLC (DivRel) decides.
+    void div_search() {
+        if (sizeof(S) < 2) return;
+        const std::size_t rounds = (g_tier ? 4000000u : 500000u) / (sizeof(S) == 8 ? 4 : 1);
+        const int Wb = int(sizeof(S) * 8);
+        const US lim = std::is_signed<S>::value ? US(US(~US(0)) >> 1) : US(~US(0));
+        unsigned long flagged = 0;
+        set_label(tn, "div");
+        for (std::size_t it = 0; it < rounds; ++it) {
+            A a, b;
+            for (unsigned j = 0; j < N; ++j) {
+                std::uint64_t c = rng.next();
+                US mag, k;
+                switch (c % 8) {
+                    case 0: case 1: case 2:              // small quotient, full-width divisor
+                        mag = US(rng.next()) & lim;
+                        k = US(1 + (c >> 8) % 64);
+                        break;
+                    case 3:                               // quotient next to a power of two
+                        k = US(US(1) << ((c >> 8) % (Wb - 2)));
+                        k = US(k + US((c >> 16) % 3) - 1);
+                        mag = US(rng.next()) & lim;
+                        if (k > 1) mag = US(mag % US(lim / k + 1));
+                        break;
+                    case 4:                               // mixed widths
+                        mag = US(US(rng.next()) & lim) >> ((c >> 8) % Wb);
+                        k = US(US(rng.next()) & lim) >> ((c >> 16) % Wb);
+                        break;
+                    default:                              // uniform numerator
+                        mag = US(US(rng.next()) & lim) >> (((c >> 8) % 4 == 0) ? (c >> 16) % Wb : 0);
+                        k = 0;
+                        break;
+                }
+                if (mag == 0) mag = 1;
+                US num;
+                if (k == 0) num = US(rng.next()) & lim;
+                else {
+                    if (k > lim / mag) k = US(lim / mag);
+                    num = US(US(mag * k) + US((c >> 24) % 3) - 1);
+                    if (num > lim) num = lim;
+                }
+                const bool na = std::is_signed<S>::value && ((c >> 32) & 1), nb = std::is_signed<S>::value && ((c >> 33) & 1);
+                a[j] = na ? S(US(0) - num) : S(num);
+                b[j] = nb ? S(US(0) - mag) : S(mag);
+                if (b[j] == 0 || min_over_m1(a[j], b[j])) b[j] = S(1);
+            }
+            A q{}, r{};
+            const int form = int(it % 3);
+            opaque(a);
+            opaque(b);
+            int sg = guarded([&] {
+                if (form == 0) {
+                    auto d = avel::div(V(a), V(b));
+                    q = avel::to_array(d.quot);
+                    r = avel::to_array(d.rem);
+                } else if (form == 1) {
+                    q = avel::to_array(V(a) / V(b));
+                    r = avel::to_array(V(a) % V(b));
+                } else {
+                    V x(a), y(a);
+                    x /= V(b);
+                    y %= V(b);
+                    q = avel::to_array(x);
+                    r = avel::to_array(y);
+                }
+            });
+            bool bad = sg != 0;
+            for (unsigned j = 0; j < N && !bad; ++j) bad = q[j] != S(a[j] / b[j]) || r[j] != S(a[j] % b[j]);
+            if (bad) ++flagged;
+            if ((bad && flagged <= 400) || it % (rounds / 64) == 0)
+                for (unsigned j = 0; j < N; ++j)
+                    emit(Fact("div", K).val("a", a[j]).val("b", b[j]).val("q", sg ? S(0) : q[j]).val("r", sg ? S(0) : r[j]).signal(sg), tn, int(j),
+                         form == 0 ? "div" : form == 1 ? "ops" : "eq");
+        }
+        std::fprintf(stderr, "vh-sweep: %s div-search inputs=%lu disagreements=%lu\n", tn, (unsigned long) (rounds * N), flagged);
+    }
+
     void division() {
         for_pair_batches([&](const A& a, const A& b) { div_batch(a, b); });
+        div_search();
+        self_assign("div", [](V& x) -> V& { return x /= x; });
+        self_assign("rem", [](V& x) -> V& { return x %= x; });
         // a zero divisor in every lane position in turn, the other lanes carry checked pairs
         if (N > 1) {
             std::size_t n = P.size();
